@@ -15,14 +15,14 @@ import (
 // single-task executions (no scheduler): one goroutine, decisions from one choice stream.
 
 type singleRun struct {
-	Log      []string
-	Escaped  string // formatted value of a panic escaping the entry point ("" if none)
-	NChoose  int
-	NFault   int
-	Output   string
-	LoadErr  string
-	FaultHit bool
-	FaultSite string
+	Log         []string
+	Escaped     string // formatted value of a panic escaping the entry point ("" if none)
+	NChoose     int
+	NFault      int
+	Output      string
+	LoadErr     string
+	FaultHit    bool
+	FaultSite   string
 	FaultLogLen int // number of events logged before the fault fired
 }
 
